@@ -91,10 +91,10 @@ PROPS = {
         "trusted": [], "assumptions": [],
     },
     "C11": {
-        "lean_targets": ["Pep508.Theorems.C11"],
+        "lean_targets": ["Pep508.Theorems.C11", "Pep508.Theorems.C05"],
         "theorems": ["Pep508.C11.restrict_eval", "Pep508.C11.restrict_independent", "Pep508.C11.not_mentioned_irrelevant",
-                     "Pep508.C11.with_extra_marker_eval", "Pep508.C11.extra_expr_eval", "Pep508.OK_restrict"],
-        "suites": [{"name": "algebra", "args": ["C11"]}],
+                     "Pep508.C11.with_extra_marker_eval", "Pep508.C11.extra_expr_eval", "Pep508.OK_restrict", "Pep508.C05.common_term_holds"],
+        "suites": [{"name": "algebra", "args": ["C11"]}, {"name": "algebra", "args": ["C05"]}],
         "rule": "a pool of markers is built through the real API along random construction paths (typed expressions, and/or/negate, simplify_extras, "
                 "simplify/complexify_python_versions, plus shapes generated on purpose); simplify_extras(E) with 1-2 extras (spellings of one normal form included) is applied one step from literal operands and compared with the model; "
                 "the result is evaluated on region environments against the original on S union E and its dump is searched for variables of E; extra == 'N' / != 'N' atoms "
@@ -156,7 +156,9 @@ PROPS = {
         "lean_targets": ["Pep508.Theorems.C06"],
         "theorems": ["Pep508.C06.marker_tree_never_panics", "Pep508.C06.marker_tree_err_span", "Pep508.C06.marker_tree_err_sliceable",
                      "Pep508.C06.marker_expression_never_panics", "Pep508.C06.marker_expression_err_span", "Pep508.C06.take_while_sliceable",
-                     "Pep508.parseMarkers_total", "Pep508.descentOK", "Pep508.Cursor.takeWhile_slice"],
+                     "Pep508.parseMarkers_total", "Pep508.descentOK", "Pep508.Cursor.takeWhile_slice",
+                     "Pep508.C06.requirement_never_panics", "Pep508.C06.requirement_err_span", "Pep508.C06.requirement_external_calls",
+                     "Pep508.C06.requirement_url_ends_span", "Pep508.C06.extras_never_panic", "Pep508.C06.name_never_panics"],
         "suites": [{"name": "mparse", "args": ["C06"]}, {"name": "req", "args": ["C06"]}],
         "rule": "marker texts: the full operand-kind x operator x operand-kind table, derivations x layouts, and hostile mutations (multi-byte characters at token boundaries, "
                 "U+3000/U+0085 whitespace, NUL, lone quotes, truncations) through MarkerTree::parse_reporter and MarkerExpression::parse_reporter; requirement texts: derivations "
@@ -164,7 +166,7 @@ PROPS = {
                 "Requirement::parse_reporter / from_str and Extras::parse; every call runs in a worker process under catch_unwind followed by a liveness probe (a poisoned "
                 "interner is itself reported), every error is formatted with Display and its span start checked for a char boundary; outcomes (ok dump / error class+span / panic) "
                 "are compared with the Lean parser models; non-trivial = distinct operand-kind/operator classes and texts",
-        "trusted": ["the requirement parser model (ReqParse.lean) is tied by correspondence only; its totality is not yet a Lean theorem", "unnamed requirements: C19"],
+        "trusted": ["unnamed requirements (feature build) are covered by the oracle only: C19"],
         "assumptions": ["unbounded parenthesis nesting exhausts the Rust stack; not claimed (the model's fuel is proved sufficient, the stack is not modelled)"],
     },
     "C17": {
@@ -179,8 +181,9 @@ PROPS = {
         "trusted": ["that evaluation-time warning collection does not change results is checked by the C01 suite (four entry points)"], "assumptions": [],
     },
     "C07": {
-        "lean_targets": ["Pep508.Theorems.C06", "Pep508.Theorems.C17"],
-        "theorems": ["Pep508.C06.marker_tree_never_panics", "Pep508.parseMarkers_total", "Pep508.C17.chain_skips_dropped"],
+        "lean_targets": ["Pep508.Theorems.C07", "Pep508.Theorems.C06", "Pep508.Theorems.C17", "Pep508.Theorems.C18"],
+        "theorems": ["Pep508.C07.name_accepted", "Pep508.C07.leading_ws_changes_diagnosis", "Pep508.C18.parse_url_is_rule", "Pep508.C06.requirement_never_panics",
+                     "Pep508.C06.requirement_external_calls", "Pep508.parseMarkers_total", "Pep508.C17.chain_skips_dropped"],
         "suites": [{"name": "req", "args": ["C07"]}, {"name": "mparse", "args": ["C07"]}],
         "rule": "grammar derivations (name x optional extras x none | bare specifiers | parenthesised specifiers | @ URL x optional marker) over pools of names, extras, PEP 440 "
                 "specifiers, URLs and marker ASTs, each rendered with two random whitespace layouts; accepted, components compared with independently computed expectations "
@@ -190,7 +193,9 @@ PROPS = {
     },
     "C05": {
         "lean_targets": ["Pep508.Theorems.C05"],
-        "theorems": ["Pep508.C05.false_literal", "Pep508.C05.quote_choice"],
+        "theorems": ["Pep508.C05.to_dnf_sound", "Pep508.C05.simplify_sound", "Pep508.C05.collect_exact", "Pep508.C05.is_negation_sound",
+                     "Pep508.C05.common_term_holds", "Pep508.C05.false_literal", "Pep508.C05.quote_choice",
+                     "Pep508.rangeTerms_sem", "Pep508.collectEdges_spec", "Pep508.redundantTerms_inv"],
         "suites": [{"name": "algebra", "args": ["C05"]}],
         "rule": "a pool of markers is built through the real API along random construction paths (typed expressions, and/or/negate, simplify_extras, "
                 "simplify/complexify_python_versions, plus shapes generated on purpose); for every pool marker: to_dnf() and the Display text are compared with the Lean DNF model (path collection with collect_edges, inequality and star-range "
@@ -220,6 +225,16 @@ PROPS = {
                 "processes is part of the C14 histories; non-trivial = pairs that are not equal",
         "trusted": [], "assumptions": [],
     },
+    "C18": {
+        "lean_targets": ["Pep508.Theorems.C18"],
+        "theorems": ["Pep508.C18.scan_is_rule", "Pep508.C18.rule_url", "Pep508.C18.rule_ambiguous", "Pep508.C18.parse_url_is_rule", "Pep508.parseUrl_total"],
+        "suites": [{"name": "req", "args": ["C18"]}],
+        "rule": "EXHAUSTIVE URL tails of length <= 4 (quick) / 5 (thorough) over {x ; # space newline} x five following contexts (end, spaced marker, comment, glued marker, tabs), plus "
+                "16 URL texts with `${NAME}` forms (set / unset / empty / lower-case / unterminated / doubled / PROJECT_ROOT / values containing `;#` and `${...}`) x four process environments: "
+                "the outcome is compared with the Lean model (urlScan, expandEnvVars) and with the URL-end rule written from the property statement; given() must be the unexpanded slice and "
+                "the parsed URL the url-crate parse of the expanded text; expand_env_vars is compared with an independent scanner and the model; non-trivial = distinct URL slices accepted",
+        "trusted": ["url::Url::parse and its Display"], "assumptions": [],
+    },
 }
 
 # suites are ready, theorems still being proved: not claimed until then
@@ -244,16 +259,6 @@ PENDING = {
                 "watchdog are reported; non-trivial = (round, thread count) pairs",
         "trusted": ["memory ordering of the lock-free arena reads and deadlock-freedom of std::sync::Mutex are outside any executable model"], "assumptions": [],
     },
-    "C18": {
-        "lean_targets": ["Pep508.Model.ReqParse"],
-        "theorems": ["Pep508.C06.marker_tree_never_panics"],
-        "suites": [{"name": "req", "args": ["C18"]}],
-        "rule": "EXHAUSTIVE URL tails of length <= 4 (quick) / 5 (thorough) over {x ; # space newline} x five following contexts (end, spaced marker, comment, glued marker, tabs), plus "
-                "16 URL texts with `${NAME}` forms (set / unset / empty / lower-case / unterminated / doubled / PROJECT_ROOT / values containing `;#` and `${...}`) x four process environments: "
-                "the outcome is compared with the Lean model (urlScan, expandEnvVars) and with the URL-end rule written from the property statement; given() must be the unexpanded slice and "
-                "the parsed URL the url-crate parse of the expanded text; expand_env_vars is compared with an independent scanner and the model; non-trivial = distinct URL slices accepted",
-        "trusted": ["url::Url::parse and its Display"], "assumptions": [],
-    },
     "C19": {
         "lean_targets": ["Pep508.Model.ReqParse"],
         "theorems": ["Pep508.C06.marker_tree_never_panics"],
@@ -272,10 +277,12 @@ _NOTE = ("Trusted: Lean 4.33 kernel (+ propext, Classical.choice, Quot.sound, au
          "differential correspondence on generated cases (sampled, not proved); ")
 MANIFEST_TEXT = {
     "C05": {
-        "technique": "differential Lean model of to_dnf + Display (exact text) and round-trip oracle; DNF soundness theorems are added as proved (evidence lists them)",
-        "text": "The DNF path collection, the batched simplifier and the renderer are transcribed to Lean and compared clause-for-clause and character-for-character with the "
-                "implementation; the round trip Display -> parse -> == and the meaning of the DNF are decided on the implementation for every pool marker.",
-        "note": _NOTE + "partial until toDnf_sound is in the theorem list; the text-level parse(render(m)) = m is not a Lean theorem.",
+        "technique": "Lean 4 theorems: to_dnf is sound (path collection with collect_edges exact; inequality / star recognition; the batched quadratic simplifier preserves meaning) "
+                     "+ exact differential model of to_dnf and Display + round-trip oracle",
+        "text": "toDnf_sound: for every well-formed typed diagram, every environment and every version spelling, the DNF denotes the marker; simplifyDnf_sound for arbitrary DNFs; "
+                "is_negation sound. The Lean DNF/rendering model equals the implementation clause for clause and character for character; Display -> parse -> == (equivalence in the "
+                "carve-out) and serde agreement are decided on the implementation for every pool marker.",
+        "note": _NOTE + "partial at the text level: parse(render(m)) = m is oracle + parser correspondence, not a Lean theorem; spelling is a parameter (K1).",
     },
     "C08": {
         "technique": "round-trip oracle on accepted derivations + differential requirement-parser model; rendering lemmas (FALSE literal, quote choice)",
@@ -303,10 +310,11 @@ MANIFEST_TEXT = {
         "note": _NOTE + "Requirement's derived Ord/Hash and VerbatimUrl's three impls are checked by oracle, not modelled; Eq/Hash by NodeId = structure is C14.",
     },
     "C18": {
-        "technique": "Lean model of the URL scan and of `${NAME}` expansion compared exhaustively on bounded URL tails x contexts x environments; rule oracle from the property text",
-        "text": "urlScan (two stop events + ambiguity error) and expandEnvVars are executable Lean definitions compared with parse_url / expand_env_vars on every tail up to the bound; the "
-                "declarative URL-end theorem is added when proved.",
-        "note": _NOTE + "partial until the urlScan = declarative rule theorem is in the theorem list; url crate trusted.",
+        "technique": "Lean 4 theorem: the URL scanning loop computes the declarative URL-end rule (first stop event, or ambiguity) for every input + exhaustive comparison on bounded "
+                     "URL tails x contexts x environments; `${NAME}` expansion by executable model and independent scanner",
+        "text": "urlScan_eq_urlEnd / parseUrl_eq_urlEnd with the first-stop characterisations (rule_url, rule_ambiguous) for all char lists; the slice is handed verbatim to the URL parser "
+                "(given() = unexpanded text). expand_env_vars is an executable Lean definition compared with the code on all generated texts x four environments.",
+        "note": _NOTE + "expandEnvVars has no independent Lean specification yet (correspondence + Rust oracle); url::Url::parse trusted.",
     },
     "C19": {
         "technique": "Lean model of looks_like_unnamed_requirement / looks_like_archive / split_scheme / split_extras inside the requirement-parser model, compared on all shapes x suffixes",
@@ -330,9 +338,10 @@ MANIFEST_TEXT = {
     "C06": {
         "technique": "Lean 4 theorem: the marker parsers never reach a panic site for any Unicode input and any behaviour of the external parsers (cursor invariant, fuel bound), "
                      "error spans start on char boundaries; requirement-level parsers by differential model + hostile-input oracle in worker processes",
-        "text": "parseMarkers_never_panics / parseExpression_never_panics, error-span boundary theorems and the cursor slicing lemmas for all inputs; the requirement / extras parsers "
-                "are modelled (ReqParse.lean, with explicit panic sites) and compared on hostile inputs, every error is rendered, every panic / poisoned lock is reported.",
-        "note": _NOTE + "partial: totality of the requirement-level model is not yet proved in Lean; stack exhaustion on unbounded nesting is outside the model.",
+        "text": "parseMarkers_never_panics / parseExpression_never_panics / parseRequirement_no_panic (names, extras, URL scan, specifier scans, unnamed detection, marker hand-off): "
+                "no panic site is reachable for any Unicode input and any behaviour of the external parsers, every error span (and every span handed to pep440_rs / url) starts on a char "
+                "boundary; models compared with the code on hostile inputs in worker processes, every error rendered, every panic / poisoned lock reported.",
+        "note": _NOTE + "Display's own slicing is checked by the oracle (it clamps after F3); stack exhaustion on unbounded nesting and the unnamed parser are outside the model.",
     },
     "C17": {
         "technique": "Lean 4 theorems on the typed dispatch (for every behaviour of the external parsers) and the chain builder + exhaustive table correspondence",
@@ -341,8 +350,8 @@ MANIFEST_TEXT = {
         "note": _NOTE + "reporter independence: the reporter is write-only in the model; evaluation-time collectors are compared by the C01 suite.",
     },
     "C07": {
-        "technique": "differential Lean model of the requirement parser (every slice handed to pep440_rs / url re-parsed by the real crates) + derivation x layout oracle; "
-                     "marker part backed by the parser totality and chain theorems",
+        "technique": "Lean 4 theorems for the parts of the grammar that are pure scanning (names accepted and normalised, URL end rule, totality, spans of external calls) + "
+                     "differential Lean model of the whole requirement parser + derivation x layout oracle",
         "text": "Derivations of the PEP 508 grammar x whitespace layouts are accepted with exactly the derivation's components; outcomes match the Lean model of "
                 "parse_name / parse_extras / specifier scans / parse_url / marker hand-off including error spans. No Lean theorem yet states acceptance of all derivations.",
         "note": _NOTE + "partial: the acceptance theorem (parse (render d) = components d) is not proved; `===` inside markers is a known finding (K2).",
